@@ -294,6 +294,8 @@ func parse_regexp_quantifier(regexp_token *Token, regexp string, index int) (*As
 		} else if comma_or_brace == '}' {
 			exp = &AstLoop{from, from, false, nil, ""}
 			end_idx = idx + 1
+		} else {
+			return nil, idx, NewParseError(regexp_token, "Unexpected character. Expected ',' or '}'")
 		}
 	} else {
 		exp = nil
